@@ -98,6 +98,38 @@ Example C13_example_override :
   end.
 Proof. vm_compute. repeat split; reflexivity. Qed.
 
+(* "each carries the type and initial value that was declared": in every scope lang::compile returns,
+   for every source text and every list of overrides, a register whose type is still a name waiting
+   to be resolved is a local, and the name it waits for is a local's.  So a report, control,
+   implicit or primitive register never carries a name in place of its declared type, whatever the
+   statements bind (untyped locals bound to one another in chains and rings included). *)
+From Portus Require Import DeclTypes NameFacts.
+Theorem C13_only_locals_wait_for_a_type : forall src ups b sc,
+  compile src ups = inl (Ok (b, sc)) ->
+  forall x r s, sc_get (sc_named sc) x = Some r -> reg_type r = TName s ->
+    (exists i, r = Local i (TName s)) /\ exists j t, sc_get (sc_named sc) s = Some (Local j t).
+Proof. exact returned_scope_names_only_on_locals. Qed.
+Print Assumptions C13_only_locals_wait_for_a_type.
+
+Theorem C13_declared_variables_keep_declared_types : forall src ups b sc,
+  compile src ups = inl (Ok (b, sc)) ->
+  forall x r, sc_get (sc_named sc) x = Some r ->
+    match r with Local _ _ => True | _ => tname_free (reg_type r) end.
+Proof. exact declared_variables_keep_declared_types. Qed.
+Print Assumptions C13_declared_variables_keep_declared_types.
+
+(* non-vacuity: two untyped locals bound to one another in a ring keep waiting; the declared ones do not *)
+Example C13_example_ring :
+  match compile (lit "(def (c 7) (Report (a 1))) (when true (:= p q) (:= q p) (:= Report.a c))") [] with
+  | inl (Ok (_, sc)) =>
+    sc_get (sc_named sc) (lit "p") = Some (Local 0 (TName (lit "q"))) /\
+    sc_get (sc_named sc) (lit "q") = Some (Local 1 (TName (lit "q"))) /\
+    sc_get (sc_named sc) (lit "c") = Some (Control 0 (TNum (Some 7)) false) /\
+    sc_get (sc_named sc) (lit "Report.a") = Some (Report 0 (TNum (Some 1)) false)
+  | _ => False
+  end.
+Proof. vm_compute. repeat split; reflexivity. Qed.
+
 (* translator obligation (lib/gen_langtables.py reads Scope::new from src/lang/datapath.rs on every
    run): inserting the source's built-in rows in the source's order gives the model's initial
    scope, whose indices the theorems above fix *)
